@@ -70,11 +70,38 @@ func env() []string {
 	return e
 }
 
+// altRepo is set (env VERIF_REPO) only for mutation testing of the machinery itself: the child
+// is then built against that scratch worktree instead of /repo, into a separate bin/work/evidence
+// area, so that /repo is not disturbed. Registered checks never set it.
+var altRepo = ""
+var altTag = ""
+
 func binName(mode string) string {
-	if mode == "plain" {
-		return filepath.Join(root, "bin", "vchild")
+	dir := filepath.Join(root, "bin")
+	if altRepo != "" {
+		dir = filepath.Join(root, "work", "alt-"+altTag, "bin")
 	}
-	return filepath.Join(root, "bin", "vchild-"+mode)
+	if mode == "plain" {
+		return filepath.Join(dir, "vchild")
+	}
+	return filepath.Join(dir, "vchild-"+mode)
+}
+
+func altModfile() (string, error) {
+	dir := filepath.Join(root, "work", "alt-"+altTag)
+	os.MkdirAll(filepath.Join(dir, "bin"), 0755)
+	b, err := os.ReadFile(filepath.Join(root, "harness", "go.mod"))
+	if err != nil {
+		return "", err
+	}
+	s := strings.Replace(string(b), "=> /repo", "=> "+altRepo, 1)
+	mf := filepath.Join(dir, "go.mod")
+	if err := os.WriteFile(mf, []byte(s), 0644); err != nil {
+		return "", err
+	}
+	sum, _ := os.ReadFile(filepath.Join(root, "harness", "go.sum"))
+	os.WriteFile(filepath.Join(dir, "go.sum"), sum, 0644)
+	return mf, nil
 }
 
 func build(mode string) error {
@@ -87,6 +114,13 @@ func build(mode string) error {
 		args = append(args, "-asan")
 	case "intpool":
 		tags = "verif VERIFY_EVM_INTEGER_POOL"
+	}
+	if altRepo != "" {
+		mf, err := altModfile()
+		if err != nil {
+			return err
+		}
+		args = append(args, "-modfile="+mf)
 	}
 	args = append(args, "-tags", tags, "-o", binName(mode), "./cmd/vchild")
 	cmd := exec.Command("go", args...)
@@ -346,6 +380,10 @@ func main() {
 	nobuild := flag.Bool("nobuild", false, "skip rebuilding (debug only)")
 	flag.Parse()
 	root = *rootF
+	if r := os.Getenv("VERIF_REPO"); r != "" && r != "/repo" {
+		altRepo = r
+		altTag = sanitize(r)
+	}
 	var prop string
 	var rp *replay
 	if *replayF != "" {
@@ -394,13 +432,20 @@ func main() {
 	}
 	start := time.Now()
 	work := filepath.Join(root, "work", prop+"."+tier)
+	evDir := filepath.Join(root, "evidence")
+	rpDir := filepath.Join(root, "replays")
+	if altRepo != "" {
+		work = filepath.Join(root, "work", "alt-"+altTag, prop+"."+tier)
+		evDir = filepath.Join(root, "work", "alt-"+altTag, "evidence")
+		rpDir = filepath.Join(root, "work", "alt-"+altTag, "replays")
+	}
 	if rp != nil {
 		work += ".replay"
 	}
 	os.RemoveAll(work)
 	os.MkdirAll(work, 0755)
-	os.MkdirAll(filepath.Join(root, "evidence"), 0755)
-	os.MkdirAll(filepath.Join(root, "replays"), 0755)
+	os.MkdirAll(evDir, 0755)
+	os.MkdirAll(rpDir, 0755)
 
 	jobs := plan.Jobs
 	if rp != nil {
@@ -545,7 +590,7 @@ func main() {
 		newViol++
 		v := vs[0]
 		name := fmt.Sprintf("%s-%s-seed%d-%s.json", prop, tier, seed, sanitize(cl))
-		path := filepath.Join(root, "replays", name)
+		path := filepath.Join(rpDir, name)
 		b, _ := json.MarshalIndent(replay{Property: prop, Tier: tier, Seed: seed, viol: v}, "", " ")
 		os.WriteFile(path, b, 0644)
 		out = append(out, fmt.Sprintf("VIOLATION property=%s replay=%s", prop, path))
@@ -624,7 +669,7 @@ func main() {
 			"violations":  newViol,
 		}
 		b, _ := json.MarshalIndent(ev, "", " ")
-		os.WriteFile(filepath.Join(root, "evidence", prop+".json"), b, 0644)
+		os.WriteFile(filepath.Join(evDir, prop+".json"), b, 0644)
 	}
 	for _, l := range out {
 		fmt.Println(l)
